@@ -323,8 +323,7 @@ class CallMixin:
         st.env = {}
         try:
             if not fr.spec:
-                for j, text in enumerate(c.requires):
-                    text = clause(text)[0]
+                for j, text, _t in self.clauses(c.requires):
                     v = self.ev1(self.parse_spec(text), st, sf)
                     self.oblige(st, '%s#call[%s].requires[%d]' % (fr.prefix, short, j), truthy(v), {'text': text})
                     st.assume(asz(truthy(v)))
@@ -335,8 +334,7 @@ class CallMixin:
                 self.havoc_modifies(s2, c, sf, pre_heap)
                 sf2 = self.spec_frame(fv.module, c.qual, fv.cls, env, old=(pre_heap, env))
                 ens = spec if isinstance(spec, (list, tuple)) else [spec]
-                for text in ens:
-                    text = clause(text)[0]
+                for _, text, _t in self.clauses(ens):
                     s2.assume(asz(truthy(self.ev1(self.parse_spec(text), s2, sf2))))
                 s2.env = dict(saved)
                 if self.feasible(s2):
@@ -349,8 +347,7 @@ class CallMixin:
                 res = fresh_val(rk, 'ret_' + short.replace('.', '_'))
                 self.tf_assume(st, self.type_facts(res, rk, st))
             sf3 = self.spec_frame(fv.module, c.qual, fv.cls, env, old=(pre_heap, env), result=res)
-            for text in c.ensures:
-                text = clause(text)[0]
+            for _, text, _t in self.clauses(c.ensures):
                 st.assume(asz(truthy(self.ev1(self.parse_spec(text), st, sf3))))
         finally:
             st.env = saved
